@@ -27,6 +27,7 @@ HEAVY = {"quick": 16, "thorough": 1600}
 RUNS = {"quick": 16 + 800, "thorough": 1600 + 80000}
 SELFTEST_N = 2  # each plan is 130 000+ transmissions
 OFFER = ["offer", 0x1111, 1, 1, 0, 3]
+PEER_HOSTS = ["10.0.0.11", "10.0.0.12", "10.0.0.13", "10.0.0.14"]
 
 
 def budget(tier):
@@ -62,7 +63,7 @@ def gen_walk(seed, idx):
             t += 0.001
         for _ in range(r.randint(0, 3)):
             x = r.random()
-            d = r.choice(others)
+            d = r.choice(others + [["10.0.0.11", 30491], [PEER_HOSTS[target] if target is not None else "10.0.0.12", 30492]])
             if x < 0.3:
                 ops.append({"k": "call", "t": round(t, 6), "f": "send_burst", "a": [[], r.choice([target, d]), r.randint(1, 3)]})
             else:
@@ -143,7 +144,12 @@ def gen_many(seed, idx):
     nd = r.choice([60, 64, 65, 66, 70, 100, 300])
     dests = []
     for j in range(nd):
-        dests.append([f"10.{1 + j // 200}.{r.randrange(4)}.{1 + j % 200}", r.choice([30490, 30490, 30491, 40000 + j])])
+        if dests and r.random() < 0.2:
+            # another SD endpoint on a host that is a destination already: its own counter
+            h, prt = r.choice(dests)
+            dests.append([h, prt + 1 + j])
+        else:
+            dests.append([f"10.{1 + j // 200}.{r.randrange(4)}.{1 + j % 200}", r.choice([30490, 30490, 30491, 40000 + j])])
     ops = [{"k": "call", "t": 0.0, "f": "start", "a": []}]
     t = 0.01
     first = r.choice([None, 0, 1])
